@@ -851,7 +851,9 @@ pub fn gen_ca_cert(r: &mut Rng, sw: &Swarm) -> CertRecipe {
 pub fn gen_crl(r: &mut Rng, sw: &Swarm) -> CrlRecipe {
     let t0 = gen_time(r);
     let t1 = if r.chance(9, 10) { t0 + r.range(1, 400 * 86400) as i64 } else { t0 - r.range(0, 1000) as i64 };
-    let nrev = if sw.big && r.chance(1, 12) {
+    let nrev = if sw.big && r.chance(1, 30) {
+        r.range(17_000, 40_000) // what a busy CA's list looks like (about 1 MB)
+    } else if sw.big && r.chance(1, 12) {
         r.range(1500, 2500) // around the 64 KiB mark
     } else if sw.big && r.chance(1, 3) {
         r.range(50, 400)
